@@ -827,6 +827,10 @@ int tls_process_client_hello_exts(const uint8_t *exts, size_t extslen, uint8_t *
 	int type;
 	const uint8_t *data;
 	size_t datalen;
+	size_t len;
+	int ec_point_formats_seen = 0;
+	int signature_algorithms_seen = 0;
+	int supported_groups_seen = 0;
 
 	while (extslen) {
 		if (tls_ext_from_bytes(&type, &data, &datalen, &exts, &extslen) != 1) {
@@ -834,20 +838,41 @@ int tls_process_client_hello_exts(const uint8_t *exts, size_t extslen, uint8_t *
 			return -1;
 		}
 
+		// every response extension is appended to out: an extension type must not
+		// appear twice (RFC 5246 7.4.1.4) and the response must fit into maxlen
+		len = 0;
 		switch (type) {
 		case TLS_extension_ec_point_formats:
+			if (ec_point_formats_seen++
+				|| tls_process_client_ec_point_formats(data, datalen, NULL, &len) != 1
+				|| *outlen > maxlen || len > maxlen - *outlen) {
+				error_print();
+				return -1;
+			}
 			if (tls_process_client_ec_point_formats(data, datalen, &out, outlen) != 1) {
 				error_print();
 				return -1;
 			}
 			break;
 		case TLS_extension_signature_algorithms:
+			if (signature_algorithms_seen++
+				|| tls_process_client_signature_algorithms(data, datalen, NULL, &len) != 1
+				|| *outlen > maxlen || len > maxlen - *outlen) {
+				error_print();
+				return -1;
+			}
 			if (tls_process_client_signature_algorithms(data, datalen, &out, outlen) != 1) {
 				error_print();
 				return -1;
 			}
 			break;
 		case TLS_extension_supported_groups:
+			if (supported_groups_seen++
+				|| tls_process_client_supported_groups(data, datalen, NULL, &len) != 1
+				|| *outlen > maxlen || len > maxlen - *outlen) {
+				error_print();
+				return -1;
+			}
 			if (tls_process_client_supported_groups(data, datalen, &out, outlen) != 1) {
 				error_print();
 				return -1;
